@@ -1043,3 +1043,80 @@ func (g *IG) owns(p *Program, fn *ssa.Function) bool {
 	}
 	return true
 }
+
+// ---- event summaries through helpers ------------------------------------------------------
+//
+// A role-defining effect ("kills the connection actor", "re-arms the reader") may be moved into a helper that several
+// sites call. eventNodes finds the direct sites of pred in g and, for static calls to module functions of the same package,
+// classifies the call by a summary of the callee: must (every entry→return path of the callee performs the effect, directly
+// or through a must-callee) or may (some instruction of the callee or of its static module callees, depth <= 3, performs it).
+// Rules use `must` where the effect is required and `may` where it is forbidden.
+
+func (p *Program) mayDo(fn *ssa.Function, pred func(ssa.Instruction) bool, depth int, seen map[*ssa.Function]bool) bool {
+	if fn == nil || seen[fn] || depth > 3 || len(fn.Blocks) == 0 {
+		return false
+	}
+	seen[fn] = true
+	for _, f := range withAnon(fn) {
+		for _, b := range f.Blocks {
+			for _, in := range b.Instrs {
+				if pred(in) {
+					return true
+				}
+				if c := callOf(in); c != nil {
+					if y := c.StaticCallee(); y != nil && p.inModule(y) && p.mayDo(y, pred, depth+1, seen) {
+						return true
+					}
+				}
+			}
+		}
+	}
+	return false
+}
+
+func (p *Program) mustDo(fn *ssa.Function, pred func(ssa.Instruction) bool, depth int) bool {
+	if fn == nil || depth > 2 || len(fn.Blocks) == 0 {
+		return false
+	}
+	g := p.ig(fn)
+	via := map[int]bool{}
+	for i, in := range g.Nodes {
+		if pred(in) {
+			via[i] = true
+			continue
+		}
+		if c, ok := in.(*ssa.Call); ok {
+			if y := c.Call.StaticCallee(); y != nil && y != fn && p.inModule(y) && fnPkg(y) == fnPkg(fn) && p.mustDo(y, pred, depth+1) {
+				via[i] = true
+			}
+		}
+	}
+	if len(via) == 0 {
+		return false
+	}
+	return !anyIn(g.Reach(g.entry(), via, nil), g.Exits)
+}
+
+func (p *Program) eventNodes(g *IG, pred func(ssa.Instruction) bool) (must, may map[int]bool) {
+	must, may = map[int]bool{}, map[int]bool{}
+	for i, in := range g.Nodes {
+		if pred(in) {
+			must[i], may[i] = true, true
+			continue
+		}
+		c, ok := in.(*ssa.Call)
+		if !ok {
+			continue
+		}
+		y := c.Call.StaticCallee()
+		if y == nil || !p.inModule(y) || fnPkg(y) != fnPkg(g.Fn) || y == g.Fn {
+			continue
+		}
+		if p.mustDo(y, pred, 1) {
+			must[i], may[i] = true, true
+		} else if p.mayDo(y, pred, 1, map[*ssa.Function]bool{}) {
+			may[i] = true
+		}
+	}
+	return
+}
